@@ -10,7 +10,7 @@
    inner links) is CPython/kernel behaviour: exercised on the real commands by the check's oracle.
    Proofs in Proofs/PurgeProofs.v. *)
 From TV Require Import Prelude.Str Prelude.PosixPath Prog.Prog Cmd.Put Cmd.Scan Cmd.Empty Cmd.Rm
-  Proofs.PathProofs Proofs.PurgeProofs.
+  Proofs.PathProofs Proofs.PurgeProofs World.World Proofs.WorldProofs Proofs.WorldPurge.
 Open Scope N_scope.
 
 Theorem empty_targets_inside : forall o, Forall clean (eo_trash_dirs o) ->
@@ -34,6 +34,28 @@ Proof.
   split; [apply pobc_clean; assumption|apply payload_name_valid; assumption].
 Qed.
 Print Assumptions payload_path_of_info.
+
+(* ---- on the tree of files (World.v): after any run of trash-empty / trash-rm that is consistent with a file system s,
+   every path q that is not at or below some <td>/info/<x> or <td>/files/<x> - td a trash directory of the spec's
+   shape, x one entry name - holds exactly what it held before; and nothing at all is created. *)
+Theorem empty_changes_nothing_outside : forall o, Forall clean (eo_trash_dirs o) ->
+  all_runs (fun t _ => forall q,
+      (forall td p, td_shape (eo_environ o) (eo_uid o) (eo_trash_dirs o) td -> clean td -> target_in td p -> under p q = false) ->
+      forall s s', wrun s t s' -> wfs s' q = wfs s q) (empty_main o).
+Proof. exact empty_world_frame_lemma. Qed.
+Print Assumptions empty_changes_nothing_outside.
+
+Theorem rm_changes_nothing_outside : forall o,
+  all_runs (fun t _ => forall q,
+      (forall td p, td_shape (ro_environ o) (ro_uid o) [] td -> clean td -> target_in td p -> under p q = false) ->
+      forall s s', wrun s t s' -> wfs s' q = wfs s q) (rm_main o).
+Proof. exact rm_world_frame_lemma. Qed.
+Print Assumptions rm_changes_nothing_outside.
+
+Theorem purge_creates_nothing : forall env uid users t, Forall (fun p => purge_ok env uid users (fst p)) t ->
+  forall q s s', wrun s t s' -> wfs s q = None -> wfs s' q = None.
+Proof. exact purge_creates_nothing. Qed.
+Print Assumptions purge_creates_nothing.
 
 (* ---- non-vacuity ---- *)
 Example clean_home : clean ($"/home/u/.local/share/Trash").
